@@ -46,10 +46,10 @@ def run(harness, values, profile="dev", features=()):
     return {"outcome": "crash", "message": f"exit {p.returncode}: {p.stderr[-300:]}"}
 
 
-def run_scss(src, profile="dev"):
+def run_scss(src, profile="dev", compressed=False):
     exe = build(profile)
     try:
-        p = subprocess.run([exe, "--scss", src], capture_output=True, text=True, timeout=120)
+        p = subprocess.run([exe, "--scss-compressed" if compressed else "--scss", src], capture_output=True, text=True, timeout=120)
     except subprocess.TimeoutExpired:
         return {"outcome": "crash", "message": "timeout"}
     for line in p.stdout.split("\n"):
